@@ -32,7 +32,7 @@ type Config struct {
 }
 
 type Op struct {
-	K string `json:"k"` // I | D | adv | fibins | fibrm | setstrat | unsetstrat | cap
+	K string `json:"k"` // I | D | adv | fibins | fibrm | setstrat | unsetstrat | cap | down | up
 	F int    `json:"f,omitempty"`
 	N string `json:"n,omitempty"`
 
@@ -57,6 +57,13 @@ type Op struct {
 	Var     int    `json:"var,omitempty"`
 
 	D int64 `json:"d,omitempty"` // adv: nanoseconds
+
+	// face churn: "down" removes face F (unregistered as when its transport closes); "up" adds a
+	// face (Local, Link) which becomes face number len(faces)+1 of the case; Van on an I or D
+	// op: face F disappears while this packet of its is still queued for the forwarding thread
+	Van   bool `json:"van,omitempty"`
+	Local bool `json:"loc,omitempty"`
+	Link  int  `json:"lnk,omitempty"`
 
 	Cost  uint64 `json:"cost,omitempty"`
 	Strat int    `json:"strat,omitempty"` // 0 best-route, 1 multicast
@@ -212,6 +219,7 @@ type Model struct {
 	// on at most CsCap packets may be cached
 	newNameSinceCap bool
 	tainted         string // non-empty: an ambiguous situation was touched; nothing is judged any more
+	gone            map[int]bool // faces that were removed
 
 	// statistics for the non-triviality rules
 	St Stats
@@ -221,13 +229,15 @@ type Stats struct {
 	DataDelivered, MultiMatch, TokenEcho, DupData, Unsolicited                    int
 	Forwarded, NotFwdLoop, NotFwdDead, NotFwdHop, NotFwdSuppressed, NotFwdNoNonce int
 	FibChanges, CsHits, Expired, Satisfied, Evictable                             int
+	FaceDown, FaceUp, VanishedArrival, DataForGoneFace, HopViaGoneFace            int
 	LocalhostNonLocalCandidate, LocalhostLocalExchange, LocalhostInboundRejected  int
 	RetxForwarded, HintUsed, NextHopUsed, AllowedArrivalCopy, LapsedAllowed       int
 	ReusedSatisfied                                                               int
 }
 
 func NewModel(cfg Config) *Model {
-	return &Model{cfg: cfg, hops: map[string]map[int]uint64{}, strat: map[string]int{"/": 0},
+	cfg.Faces = append([]FaceSpec{}, cfg.Faces...)
+	return &Model{gone: map[int]bool{}, cfg: cfg, hops: map[string]map[int]uint64{}, strat: map[string]int{"/": 0},
 		pit: map[pitKey]*entry{}, tok: map[string]pitKey{}, tokOp: map[int]string{}, ambTok: map[string]bool{},
 		dead: map[string]deadRec{}, early: map[string]int64{}, refused: map[string]bool{}, cache: map[string]*cached{}, minCap: cfg.CsCap}
 }
@@ -235,11 +245,65 @@ func NewModel(cfg Config) *Model {
 func (m *Model) Now() int64      { return m.now }
 func (m *Model) Tainted() string { return m.tainted }
 
+// face: the face with this number, if it exists now (a removed face does not).
 func (m *Model) face(id int) (FaceSpec, bool) {
 	if id < 1 || id > len(m.cfg.Faces) {
 		return FaceSpec{}, false
 	}
-	return m.cfg.Faces[id-1], true
+	return m.cfg.Faces[id-1], !m.gone[id]
+}
+
+// NFaces: how many faces the case has had so far (removed ones included).
+func (m *Model) NFaces() int { return len(m.cfg.Faces) }
+
+// FaceIsUp reports whether face id exists now.
+func (m *Model) FaceIsUp(id int) bool { _, ok := m.face(id); return ok }
+
+// FaceDown: the face is unregistered. Whether the forwarder keeps or purges what it recorded
+// for that face is not pinned by any statement: its in-records become uncertain (Data need not,
+// and observably cannot, reach it; an entry held alive only by them may or may not remain).
+func (m *Model) FaceDown(id int) {
+	if _, ok := m.face(id); !ok {
+		return
+	}
+	m.gone[id] = true
+	m.St.FaceDown++
+	for _, e := range m.pit {
+		if r, ok := e.in[id]; ok {
+			r.maybe = true
+		}
+	}
+}
+
+// FaceUp: a new face appears; it gets the next face number of the case.
+func (m *Model) FaceUp(fs FaceSpec) int {
+	m.cfg.Faces = append(m.cfg.Faces, fs)
+	m.St.FaceUp++
+	return len(m.cfg.Faces)
+}
+
+// Vanished judges a packet whose arrival face was unregistered while the packet was still
+// queued: the forwarder may drop it or process it as usual -- but a /localhost packet from a
+// non-local face has no effect either way (C09). judge is m.Interest or m.Data bound to the op.
+func (m *Model) Vanished(op Op, em []Emission, judge func() *Violation) *Violation {
+	if m.tainted != "" {
+		return nil
+	}
+	f, _ := m.face(op.F)
+	m.St.VanishedArrival++
+	noEffect := !f.Local && isLocalhost(op.N)
+	var v *Violation
+	if len(em) > 0 || noEffect {
+		v = judge() // processed (or must have no effect): the usual rules apply
+	}
+	m.FaceDown(op.F)
+	if v != nil {
+		return v
+	}
+	if len(em) == 0 && !noEffect && m.tainted == "" {
+		m.tainted = "arrival face unregistered while its packet was queued: dropped or processed, both allowed"
+	}
+	return nil
 }
 
 func (m *Model) lpmHops(name string) map[int]uint64 {
@@ -765,7 +829,10 @@ func (m *Model) Interest(idx int, op Op, wire []byte, em []Emission) *Violation 
 	}
 
 	// 6c. suppression: a different-nonce out-record younger than the suppression interval
-	for _, o := range e.out {
+	for h, o := range e.out {
+		if m.gone[h] {
+			continue // forwarded to a face that has since been removed: whether that still suppresses is open
+		}
 		if o.nonce != op.Nonce && m.now-o.sent < suppression {
 			m.St.NotFwdSuppressed++
 			return none("C02", fmt.Sprintf("is a different-nonce retransmission %dms after the last forwarding (suppression interval 500ms)", (m.now-o.sent)/ms))
@@ -784,6 +851,9 @@ func (m *Model) Interest(idx int, op Op, wire []byte, em []Emission) *Violation 
 	for h, cost := range H {
 		g, exists := m.face(h)
 		if !exists {
+			if m.gone[h] {
+				m.St.HopViaGoneFace++
+			}
 			continue
 		}
 		if h == op.F && g.Link == 0 {
@@ -1005,7 +1075,11 @@ func (m *Model) Data(idx int, op Op, wire []byte, tok []byte, em []Emission) *Vi
 			pendingMatched++
 		}
 		for g, r := range e.in {
-			gs, _ := m.face(g)
+			gs, up := m.face(g)
+			if !up {
+				m.St.DataForGoneFace++
+				continue // the face is gone: nothing can be observed there, nothing is required
+			}
 			if lh && !gs.Local {
 				m.St.LocalhostNonLocalCandidate++
 				continue // forbidden (C09); an emission there is reported below
